@@ -1,6 +1,7 @@
 package main
 
 import (
+	"os"
 	"fmt"
 	"go/constant"
 	"go/types"
@@ -70,6 +71,9 @@ func (v *FnVC) havocEmits(st *State, formats map[string]bool, top bool) {
 		fs = append(fs, f)
 	}
 	if top {
+		if os.Getenv("GOVC_TRACE_EMIT") != "" {
+			fmt.Fprintf(os.Stderr, "havocEmits(top) in %s at %v\n", FuncKey(v.fn), v.curInsDesc())
+		}
 		for k := range st.ghost {
 			if strings.HasPrefix(k, "ec#") {
 				fs = append(fs, strings.TrimPrefix(k, "ec#"))
@@ -712,4 +716,11 @@ func collectEmitCounts(e SExpr, out map[string]int64) {
 	var n int64
 	fmt.Sscanf(lit.Val, "%d", &n)
 	out[f.Val] = n
+}
+
+func (v *FnVC) curInsDesc() string {
+	if v.top != nil && v.top.curIns != nil {
+		return fmt.Sprintf("%s @%s", v.top.curIns.String(), v.w.Fset.Position(v.top.curIns.Pos()))
+	}
+	return "?"
 }
